@@ -9,7 +9,8 @@ DEFAULT = {
  "C16": ["C16"], "C17": ["C17", "C01"], "C18": ["C18", "C01"], "C19": ["C19"], "C20": ["C20"],
 }
 REVERT = {"12105e7": ["C20"], "51f7c5b": ["C14", "C05"], "68c531e": ["C15"], "087feea": ["C20"], "745a4ef": ["C20"], "2159c02": ["C13", "C12"],
-          "f2f2650": ["C08", "C01"], "5dedb9b": ["C08"], "d9a3c32": ["C08"], "8d6dc1d": ["C15", "C09", "C08"]}
+          "f2f2650": ["C08", "C01"], "5dedb9b": ["C08"], "d9a3c32": ["C08"], "8d6dc1d": ["C15", "C09", "C08"],
+          "757c07d": ["C08"], "f0fc689": ["C14"], "3581ec3": ["C14"], "1ab53b3": ["C17"]}
 def sh(cmd, **kw):
     return subprocess.run(cmd, shell=True, capture_output=True, text=True, **kw)
 assert sh("git -C /repo status --short").stdout.strip() == "", "/repo not clean"
@@ -24,7 +25,8 @@ for sid in ids:
     if sid.startswith("revert_"):
         checks = REVERT.get(sid[len("revert_"):], ["C08", "C15"])
     else:
-        checks = DEFAULT.get(sid, [sid])
+        base = sid.split("_")[-1]                 # w3_C05 -> C05
+        checks = DEFAULT.get(base, [base])
     if sh(f"git -C /repo apply {SEEDED}/{sid}/patch.diff").returncode != 0:
         rows.append({"seeded": sid, "error": "patch does not apply"}); continue
     try:
@@ -37,4 +39,11 @@ for sid in ids:
             print(rows[-1], flush=True)
     finally:
         sh("git -C /repo checkout -- .")
+if only:                                       # partial run: merge into the existing matrix
+    try:
+        old = json.load(open("/verif/seeded/DETECTION.json"))
+    except Exception:
+        old = []
+    rows = [r for r in old if r.get("seeded") not in only] + rows
+    rows.sort(key=lambda r: (r.get("seeded", ""), r.get("check", "")))
 json.dump(rows, open("/verif/seeded/DETECTION.json", "w"), indent=1)
